@@ -453,6 +453,51 @@ func checkHeapAdapter(c *Ctx, p *core.Prog) {
 	}
 	c.R.Check(okSwap, "R20.2", "pqHeap.Swap reports, for both swapped cells, the value now stored there with that cell's index", p.Pos(swap.Pos()),
 		"setIndex(a[i], i) and setIndex(a[j], j) after the exchange, under the nil guard", why)
+	// R20.13: container/heap calls Swap(i, j) to move elements and relies on the exchange having happened: the two stores and
+	// the two reports are reached whatever the elements are - the only tests that may stand in front of them are the nil
+	// guard of the callback and a comparison of the two indices with each other (swapping a cell with itself is a no-op)
+	{
+		cd := core.NewPostDom(swap).TransitiveControlDeps()
+		isParam := func(v ssa.Value) bool { _, ok := core.Unspill(v).(*ssa.Parameter); return ok }
+		bad := ""
+		nSites := 0
+		site := func(in ssa.Instruction, what string) {
+			nSites++
+			for d := range cd[in.Block()] {
+				ifi, isIf := d.Instrs[len(d.Instrs)-1].(*ssa.If)
+				if !isIf {
+					continue
+				}
+				ok := false
+				if bo, isBo := ifi.Cond.(*ssa.BinOp); isBo && (bo.Op == token.EQL || bo.Op == token.NEQ) {
+					if cst, isC := bo.Y.(*ssa.Const); isC && cst.Value == nil && strings.HasSuffix(core.AP(bo.X), "."+setIndexField) {
+						ok = true
+					}
+					if isParam(bo.X) && isParam(bo.Y) {
+						ok = true
+					}
+				}
+				if !ok && bad == "" {
+					bad = what + " at " + p.Pos(in.Pos()) + " is reached only when the test at " + p.Pos(ifi.Cond.Pos()) + " goes one way (" + eng.Describe(ifi.Cond) + ")"
+				}
+			}
+		}
+		for _, b := range swap.Blocks {
+			for _, in := range b.Instrs {
+				if st, ok := in.(*ssa.Store); ok {
+					if ia, ok := st.Addr.(*ssa.IndexAddr); ok && strings.HasSuffix(core.AP(ia.X), "."+itemsField) {
+						site(st, "the store into the array")
+					}
+				}
+			}
+		}
+		for _, sc := range calls {
+			site(sc.at, "the index report")
+		}
+		c.R.Check(bad == "" && nSites > 0, "R20.13", "pqHeap.Swap exchanges the two cells and reports both indices whatever the elements are", p.Pos(swap.Pos()),
+			fmt.Sprintf("%d stores/reports: in front of them only the callback's nil guard and comparisons of the two indices", nSites),
+			bad+": container/heap moves the element to remove into the last cell with Swap and then drops that cell - when the exchange is skipped (say for elements of equal priority) another element is dropped instead, and the indices reported go stale")
+	}
 	// Push
 	calls = setIndexCalls(push, 0)
 	okPush := len(calls) == 1
@@ -626,6 +671,7 @@ func checkSetEqual(c *Ctx, p *core.Prog, fn *ssa.Function, typ string) {
 			}
 		}
 	}
+	checkSetPredicateLeaves(c, p, fn, typ)
 	if n == 0 {
 		// the result is a computed value; nothing to decide structurally
 		c.R.Info("R20.4", key, p.Pos(fn.Pos()), "no constant true result")
@@ -941,4 +987,74 @@ func ownHeap(v ssa.Value, recv ssa.Value, heapField string, depth int) bool {
 		return n > 0
 	}
 	return heapField != "" && strings.HasSuffix(core.AP(v), "."+heapField)
+}
+
+// checkSetPredicateLeaves: R20.12. Two sets are equal when they have the same members: what Equal returns is computed from
+// membership tests (map look-ups), sizes, constants and other predicates of the set type - not from a comparison of strings
+// or other values built out of the elements (a rendering of a set such as its sorted elements joined with a separator is
+// not injective: {"a,b","c"} and {"a","b,c"} render alike).
+func checkSetPredicateLeaves(c *Ctx, p *core.Prog, fn *ssa.Function, typ string) {
+	bad := ""
+	seen := map[ssa.Value]bool{}
+	var walk func(v ssa.Value)
+	walk = func(v ssa.Value) {
+		v = core.Unspill(v)
+		if seen[v] || bad != "" {
+			return
+		}
+		seen[v] = true
+		switch x := v.(type) {
+		case *ssa.Const:
+		case *ssa.Phi:
+			for _, e := range x.Edges {
+				walk(e)
+			}
+		case *ssa.UnOp:
+			if x.Op == token.NOT {
+				walk(x.X)
+			} else if x.Op == token.MUL {
+				bad = "a value loaded from " + eng.Describe(x.X)
+			}
+		case *ssa.Extract:
+			if lk, ok := x.Tuple.(*ssa.Lookup); !ok || !lk.CommaOk {
+				bad = eng.Describe(x)
+			}
+		case *ssa.Lookup:
+			// map[T]bool used as a set
+		case *ssa.Call:
+			if callee := x.Call.StaticCallee(); callee == nil || callee.Pkg != fn.Pkg || !types.Identical(callee.Signature.Results().At(0).Type(), types.Typ[types.Bool]) {
+				bad = "the result of " + eng.Describe(x)
+			}
+		case *ssa.BinOp:
+			switch x.Op {
+			case token.LAND, token.LOR, token.AND, token.OR:
+				walk(x.X)
+				walk(x.Y)
+			default:
+				for _, o := range []ssa.Value{x.X, x.Y} {
+					if bt, ok := o.Type().Underlying().(*types.Basic); !ok || bt.Info()&types.IsInteger == 0 {
+						if _, isPtr := o.Type().Underlying().(*types.Pointer); isPtr {
+							continue // s == other, x == nil
+						}
+						if _, isMap := o.Type().Underlying().(*types.Map); isMap {
+							continue // s.set == nil
+						}
+						bad = "a comparison of " + o.Type().String() + " values (" + eng.Describe(x) + ")"
+					}
+				}
+			}
+		default:
+			bad = eng.Describe(v)
+		}
+	}
+	n := 0
+	for _, b := range fn.Blocks {
+		if ret, ok := b.Instrs[len(b.Instrs)-1].(*ssa.Return); ok && len(ret.Results) == 1 {
+			n++
+			walk(ret.Results[0])
+		}
+	}
+	c.R.Check(bad == "" && n > 0, "R20.12", typ+".Equal decides by membership and size", p.Pos(fn.Pos()),
+		fmt.Sprintf("%d return(s): constants, map look-ups, sizes, predicates of the package", n),
+		"what Equal returns is computed from "+bad+", not from membership tests: a value built out of the elements (a joined or formatted rendering) does not tell apart sets whose elements contain the separator")
 }
